@@ -153,12 +153,12 @@ def check(run):
         return
     found_before = len(run.violations) + len(run.known_hit)
     progs, metas = [], []
-    for _ in range(1500 if thorough else 220):
+    for _ in range(1500 if thorough else 500):
         lines, meta = history(rng, rng.choice(["x64", "x86", "a64", "rv"]), thorough)
         progs.append(lines)
         metas.append(meta)
     # labelled programs across growth (position independent references only)
-    for _ in range(600 if thorough else 80):
+    for _ in range(600 if thorough else 200):
         fam = rng.choice(["x64", "a64", "rv"])
         g = asmgen.Gen(rng, "asm", fam, max_ops=25)
         lines, _ = g.build()
